@@ -146,6 +146,8 @@ pub fn run(ctx: &Ctx) -> i32 {
             return;
         }
         ctx.state(1);
+        // one query round can only reach |domain| tuples: fewer witnesses are needed to see them all
+        let witnesses = if thorough && q == 1 { 600 } else if thorough && q == 2 { 2500 } else { witnesses };
         for w in 0..witnesses {
             let case = format!("{tag} pow_witness={w}");
             ctx.case("steered-roundtrip", &case, || {
@@ -269,6 +271,6 @@ pub fn run(ctx: &Ctx) -> i32 {
             "the index tuples are those reachable through N pow witnesses per circuit (reported: distinct multisets and collision patterns), not all lde^q tuples".into(),
             "Merkle path compression alone is enumerated over all index tuples by C12".into(),
         ],
-        extra: json!({"pow_witnesses_per_circuit": witnesses}),
+        extra: json!({"pow_witnesses_per_circuit": witnesses, "thorough_q1": 600, "thorough_q2": 2500}),
     })
 }
